@@ -69,8 +69,12 @@ func c05Families(ls *sysListServer) []c05Family {
 			n++
 			cl["filtering_enabled"] = i%3 == 0
 			cl["ids"] = []string{fmt.Sprintf("127.0.0.%d", 10+i%4), "127.0.0.5"}
-			if i%4 == 0 {
+			switch i % 4 {
+			case 0:
 				cl["ids"] = []string{"127.0.0.0/24"}
+			case 2:
+				// A CIDR spelled with host bits set.
+				cl["ids"] = []string{fmt.Sprintf("127.0.0.%d/24", 70+i%9), fmt.Sprintf("cid-%d", i%4)}
 			}
 			if s := c05Call(in, "POST", "/control/clients/update", map[string]any{"name": name, "data": cl}, 200, 400); s != "" {
 				f = append(f, s)
